@@ -44,6 +44,10 @@ CLAIMED = {
    text="Coq theorems over a deep-embedded grammar of response functions (+ - * / x^k exp sqrt, repeated variables, any depth, any dimension): direct interval evaluation encloses the point value for every point of the box (fundamental theorem of interval arithmetic, by induction on the expression, on top of the C01/C05 theorems); the tiles of subintervalise cover the box; subinterval reconstitution with direct evaluation encloses the true range; the vertex method returns exactly the min/max over the 2^d corners, both attained at points of the box (hence inside the true range). Tie: each random function is rendered as a Python callable and as a Coq term; b2b(direct | endpoints | subinterval/direct | subinterval/endpoints), n_sub 1..8, d 1..4, compared bit-exactly with the model + nesting relations against a sampled range + tiling check.",
    note="Partial: containment of subinterval/direct in the un-subdivided direct result and 'subinterval/endpoints between vertex and true range' are oracle-checked here (isotonicity is C12's theorem); exactness of the vertex method for coordinate-wise monotone functions is not proved. numpy.exp enters as recorded table; functions with x**k, k>2 are oracle-only (numpy libm power). ga / bo / cauchy strategies are outside the property.",
    technique="Coq proof by structural induction over the expression grammar + in-Coq differential run of all four strategies + sampled-range oracle", ref="5/C13"),
+ "C12": dict(
+   text="Coq theorems: the corner hull of + - * / is isotone in both operands (it is the exact range: attained + enclosing), integer powers are isotone (both ends attained), EVERY nested expression of the response-function grammar is isotone in the whole box (structural induction, any depth); Frechet bounds are isotone for operations nondecreasing in both arguments; perfect dependence (step-wise hulls + order-preserving sort) for any operation and sign; envelope, imposition; stacking with fixed masses (generalised inverse is monotone in the endpoints); sorting preserves the pointwise order. The proof closure contains the translated sign tables. Tie: pairs of executions (X,Y),(X',Y) of the implementation with X inside X' over interval ops (all shapes/kinds/orders), b2b direct/subinterval on random nested functions, p-box arithmetic f/p/o/i, constants, unary maps, env, imp, stacking, nested expressions.",
+   note="No correspondence run of its own (the models are tied to the code by the C01, C03, C05, C06, C08, C11, C13 runs). Opposite / independent dependence, operations with constants and unary maps are covered by the pair oracle (their step-wise forms are theorems of C03/C06). Slicing (mixed propagation) isotonicity is checked under C14.",
+   technique="Coq proofs (exact-range argument, structural induction) + pairwise execution oracle on the implementation", ref="5/C12"),
 }
 NA_REASON = "no check registered yet in this revision of the framework (work in progress, see DESIGN.md section 9)"
 base = json.load(open("/root/.vp/BASELINE.json"))
